@@ -139,7 +139,7 @@ theorem getLines_first_map {s : BState} {b e indent : Nat} {keep : Bool} {c : Li
     {m : List (Nat × Nat)} (h : s.getLines b e indent keep = .ok (c, m)) (hbe : b < e)
     {o : LineOffset} (ho : s.offs[b]? = some o) (hl : LineOk s.src o) :
     ∃ m0 rest, m = m0 :: rest ∧ m0.2 ≤ o.firstNonspace := by
-  have h := liftL_ok h
+  have h := liftL_eq_ok h
   obtain ⟨a, b', _, _, h3, h4, _⟩ := hl.slices
   unfold Lines.getLines at h
   rw [if_neg (by omega), Lines.getLinesGo] at h
@@ -244,14 +244,82 @@ theorem fence_np {s : BState} {silent : Bool} (hI : BInv s) (hl : s.line < s.lin
   all_goals (
     have hscan := ‹fenceScan _ _ _ _ = _›
     obtain ⟨h1, h2, h3⟩ := fenceScan_spec _ _ _ _ _ _ hscan hl)
-  · exact absurd_err h (getLines_total hI.table (by omega) (by omega))
-  · refine absurd_err h (psub_total ?_)
-    split <;> omega
-  · obtain ⟨hle, rfl⟩ := psub_ok ‹psub _ _ = _›
+  all_goals (try (exact absurd_err h (getLines_total hI.table (by omega) (by omega))))
+  all_goals (try (exact absurd_err h (psub_total (by omega))))
+  all_goals (
+    obtain ⟨hle, rfl⟩ := psub_ok ‹psub _ _ = _›
     refine absurd_err h (getMap_total ?_ ?_)
-    · split at hle ⊢ <;> omega
-    · split at hle ⊢
+    · split <;> omega
+    · split
       · have := h3 ‹_›; omega
-      · omega
+      · omega)
+
+/-! ### paragraph, lheading: the shared scan -/
+
+theorem BInv.line {s : BState} (h : BInv s) (n : Nat) : BInv { s with line := n } :=
+  h.congr rfl rfl h.lineMax
+
+theorem lazyScan_np {test : Test} (ht : TestPure test) (hto : TestOK test) (setext : Bool) :
+    ∀ (fuel : Nat) (s : BState) (n : Nat), BInv s → NoPanic (lazyScan test setext fuel s n) := by
+  intro fuel
+  induction fuel with
+  | zero => intro s n _ e h; simp [lazyScan] at h; exact h.symm
+  | succ f ih =>
+    intro s n hI e h
+    have hlen := hI.lineMax
+    simp only [lazyScan] at h
+    crackE h
+    all_goals (have hc : ¬(_ ∨ _) := ‹_›; simp only [not_or, Nat.not_le] at hc)
+    · exact absurd_err h (lineIndent_total (by omega))
+    · exact ih _ _ hI e h
+    · unfold setextCheck at h
+      crackE h
+      exact absurd_err h (getLine_total hI.table (by omega))
+    · exact absurd_err h (off_total (by omega))
+    · exact ih _ _ hI e h
+    · exact hto _ (hI.line _) (by simp only; omega) e h
+    · have e' := ht _ _ ‹test _ = _›
+      simp only [e'] at h
+      exact ih _ _ ((hI.line _).line _) e h
+
+theorem paragraph_np {test : Test} (ht : TestPure test) (hto : TestOK test) {fuel : Nat} {s : BState}
+    {silent : Bool} (hI : BInv s) (hl : s.line < s.lineMax) :
+    NoPanic (paragraphRule test fuel s silent) := by
+  have hlen := hI.lineMax
+  intro e h
+  unfold paragraphRule at h
+  crackE h
+  · exact lazyScan_np ht hto _ _ _ _ hI e h
+  all_goals (
+    obtain ⟨h1, h2, h3, _⟩ := lazyScan_spec ht false _ _ _ _ ‹lazyScan _ _ _ _ _ = _›
+    have h3 := h3 hl
+    try simp only [h1] at h)
+  · exact absurd_err h (getLines_total hI.table (by omega) (by omega))
+  · exact absurd_err h (psub_total (by omega))
+  · obtain ⟨_, rfl⟩ := psub_ok ‹psub _ 1 = _›
+    refine absurd_err h (getMap_total ?_ ?_)
+    · omega
+    · show _ - 1 < s.offs.length; omega
+
+theorem lheading_np {test : Test} (ht : TestPure test) (hto : TestOK test) {fuel : Nat} {s : BState}
+    {silent : Bool} (hI : BInv s) (hl : s.line < s.lineMax) :
+    NoPanic (lheadingRule test fuel s silent) := by
+  have hlen := hI.lineMax
+  intro e h
+  unfold lheadingRule at h
+  crackE h
+  · exact absurd_err h (lineIndent_total (by omega))
+  · exact lazyScan_np ht hto _ _ _ _ hI e h
+  all_goals (
+    obtain ⟨h1, h2, h3, h4⟩ := lazyScan_spec ht true _ _ _ _ ‹lazyScan _ _ _ _ _ = _›
+    have h3 := h3 hl
+    have h4 := h4 ‹_›
+    try simp only [h1] at h)
+  · exact absurd_err h (getLines_total hI.table (by omega) (by omega))
+  all_goals (try (exact absurd_err h (psub_total (by omega))))
+  · obtain ⟨_, rfl⟩ := psub_ok ‹psub _ 1 = _›
+    refine absurd_err h (getMap_total ?_ ?_)
+    · omega
+    · show _ + 1 - 1 < s.offs.length; omega
 
 end MdIt.Block
